@@ -84,7 +84,8 @@ def check_aminusb_predicate(ctx, rid):
                 ctx.ok(rid, f"restricted orbitals with explicit occs_aminusb ({variant}), allow_changes=False: PrepareDumpError", where)
             else:
                 ctx.violate(rid, f"restricted orbitals with an explicit occs_aminusb ({variant}) pass prepare_unrestricted_aminusb unconverted with allow_changes=False (got {'the same object' if r is data else r}): the writers then store only mo.occs and the alpha/beta occupations are lost", pa, pa.node, construct=f"aminusb {variant} not rejected")
-            data = Rec(iocls, mo=mo("restricted", variant))
+            obmark = Rec(None, tag="basis")
+            data = Rec(iocls, mo=mo("restricted", variant), title="MARK", obasis=obmark)
             src_mo = data.fields["mo"]
             try:
                 r, nw = call(data, True)
@@ -97,7 +98,14 @@ def check_aminusb_predicate(ctx, rid):
             if okc:
                 ev = AccessorEval(prog, mo_cls)
                 same_occ = _eq(AccessorEval(prog, mo_cls).get(r.fields["mo"], "occsa"), AccessorEval(prog, mo_cls).get(src_mo, "occsa")) and _eq(AccessorEval(prog, mo_cls).get(r.fields["mo"], "occsb"), AccessorEval(prog, mo_cls).get(src_mo, "occsb"))
-                okc = same_occ and data.fields["mo"] is src_mo
+                okc = same_occ and data.fields["mo"] is src_mo and r.fields.get("title") == "MARK" and r.fields.get("obasis") is obmark
+                for view in ("coeffsa", "coeffsb", "energiesa", "energiesb"):
+                    try:
+                        va, vb = AccessorEval(prog, mo_cls).get(r.fields["mo"], view), AccessorEval(prog, mo_cls).get(src_mo, view)
+                    except (Raised, NotSymbolic):
+                        continue
+                    if (va is None) != (vb is None) or (va is not None and not _eq(va, vb)):
+                        okc = False
             if okc:
                 ctx.ok(rid, f"restricted orbitals with explicit occs_aminusb ({variant}), allow_changes=True: one warning, a new object with unrestricted orbitals carrying the same alpha / beta occupations; the caller's object is untouched", where)
             else:
